@@ -1,7 +1,13 @@
 #!/usr/bin/env python3
 """Collect confirmed seeded changes (scratch worktrees under /tmp/wt, results under /var/tmp/mutres) into /verif/seeded/<ID>-<n>/."""
 import json, os, re, shutil, sys
+# delivered but not kept: the change does not break the property as stated
+SKIP = {'c04-14': 'alters only the raw byte buffer Instruction.data (used by the Display impl); opcode, operands, modes, registers, constants, types and length -- what C04 states -- are unchanged'}
 NOTES = {
+ 'c20-14': 'round 5; missed at first (no guest write to the output-port set / reset registers between a button event and the input-port read); caught after those writes were added to the event-then-traffic slice of C20',
+ 'c15-14': 'round 5; missed at first (window writes were only made by host-side pokes of the bus); caught after instruction-made stores (MOVBLW across both window edges, MOVW / MOVH / MOVB, PUSHW) were added to C15',
+ 'c15-15': 'round 5; at first caught only through the translated shape of Dmd::reset (no failing input); a failing input is found since the reset-keeps-dirty slice was added to C15',
+ 'c16-13': 'round 5; missed at first (resets were only issued with the control-block pointer where the firmware leaves it after a few steps); caught after the reset-mid-flight slice (PCBP, stack pointers and PSW flags anywhere, RAM full of markers) was added to C16',
  'c19-13': 'round 5; missed at first (no dmd_read_word at an address that is 2 mod 4); caught after the read-alignment slice was added to C19',
  'c19-14': 'round 5; missed at first (the dirty query was never repeated while the display was dirty); caught after the sequential tail of the boot case repeats it and mon_capi requires the same answer until the frame is fetched',
  'c09-13': 'round 5; missed at first (no loop-back transmission after a receiver reset with the receive FIFO pointers off zero); caught after the loop-back-after-receiver-reset slice was added to C09',
@@ -71,6 +77,9 @@ NOTES = {
 }
 for f in sorted(os.listdir('/var/tmp/mutres')):
     tag = f[:-4]
+    if tag in SKIP:
+        print('skip (outside the property):', tag)
+        continue
     p, n = tag.split('-')
     wt = '/tmp/wt/%s/out' % p
     txt = open('/var/tmp/mutres/' + f).read()
